@@ -14,66 +14,93 @@ sys.path.insert(0, os.path.join(vp.VERIF, "gen"))
 import struct_family as sf  # noqa: E402
 
 
-def run(tier):
-    chk = vp.Check("C08", tier)
-    wd = vp.workdir("c08")
-    thorough = tier == "thorough"
-    r = vp.tlc(os.path.join(vp.SPEC, "MC_Layout.tla"), os.path.join(vp.SPEC, "MC_Layout.cfg"), workers=1, timeout=300)
-    chk.add_tlc("MC_Layout", r, "layout state machine (offset mod 8, max alignment) x 20 field kinds, complete")
+MC = {"wasm32": "MC_Layout", "lp64u": "MC_Layout_lp64u", "lp16": "MC_Layout_lp16"}
+FIXED = [["long", "char", "ptr", "short", "inner", "fnptr", "larr2", "llong"],
+         ["char", "llong", "carr3", "parr2", "bool", "double", "uchar", "enum"],
+         ["float", "iarr2", "ulong", "ushort", "uint", "int", "carr3", "long"]]
+
+
+def run_abi(chk, wd, abi, thorough, nsample):
+    """Layout state machine of one guest ABI -> struct family -> driver -> Trace_Layout."""
+    mc = MC[abi]
+    r = vp.tlc(os.path.join(vp.SPEC, mc + ".tla"), os.path.join(vp.SPEC, mc + ".cfg"), workers=1, timeout=300)
+    chk.add_tlc(mc, r, "layout state machine (offset mod 8, max alignment) x 20 field kinds of the %s ABI, complete" % abi)
     if r.violated or not r.ok:
-        chk.violation("design check failed in Layout.tla: %s" % r.violated, {"tlc_tail": r.out[-2000:]})
-        return chk.finish()
+        chk.violation("design check failed in Layout.tla (%s): %s" % (abi, r.violated), {"tlc_tail": r.out[-2000:]})
+        return None
     edges = r.printed("EDGE")
+    # one statement of the ABI: the generator's descriptors must agree with the spec's Kinds
+    kd = sf.kinds_for(abi)
+    for e in edges:
+        if sf.size_align(kd[e["ev"]["kind"]][1]) != (e["ev"]["gs"], e["ev"]["ga"]):
+            raise vp.Broken("struct_family and %s disagree on kind %s" % (mc, e["ev"]["kind"]))
     walks = vp.cover_walks(edges, edges[0]["src"], maxlen=8)
     structs = sf.family_from_walks(walks)
     # quick tier: a seeded sample of the family + fixed structs with every kind first and last
     if not thorough:
         import random
         rng = random.Random(vp.seed())
-        fixed = [["long", "char", "ptr", "short", "inner", "fnptr", "larr2", "llong"],
-                 ["char", "llong", "carr3", "parr2", "bool", "double", "uchar", "enum"],
-                 ["float", "iarr2", "ulong", "ushort", "uint", "int", "carr3", "long"]]
         rest = list(structs)
         rng.shuffle(rest)
-        structs = fixed + rest[:9]
-    gdir = os.path.join(wd, "gen")
+        structs = FIXED + rest[:nsample]
+    gdir = os.path.join(wd, "gen_" + abi)
     os.makedirs(gdir, exist_ok=True)
+    src = sf.gen(structs, abi)
     with open(os.path.join(gdir, "c08_gen.inc"), "w") as f:
-        f.write(sf.gen(structs))
+        f.write(src)
     import hashlib
-    gh = int(hashlib.sha256(sf.gen(structs).encode()).hexdigest()[:7], 16)
-    drv = vp.build("c08_driver", ["c08_driver.cpp"], ["-DVM_MAX_FUNCS=250", "-I" + gdir, "-DGENHASH=%d" % gh], "-O1")
-    tpath = os.path.join(wd, "c08.ndjson")
+    gh = int(hashlib.sha256(src.encode()).hexdigest()[:7], 16)
+    drv = vp.build("c08_driver_" + abi, ["c08_driver.cpp"],
+                   ["-DVM_MAX_FUNCS=250", "-I" + gdir, "-DGENHASH=%d" % gh, "-DC08_ABI=vm_abi_" + abi], "-O1")
+    tpath = os.path.join(wd, "c08_%s.ndjson" % abi)
     p = vp.run([drv, tpath, str(vp.seed())], timeout=1100)
     if p.returncode != 0:
-        raise vp.Broken("c08_driver rc=%d %s" % (p.returncode, p.stderr[-300:]))
+        raise vp.Broken("c08_driver(%s) rc=%d %s" % (abi, p.returncode, p.stderr[-300:]))
     events = vp.read_ndjson(tpath)
     rr = vp.tlc(os.path.join(vp.SPEC, "Trace_Layout.tla"), os.path.join(vp.SPEC, "Trace_Layout.cfg"), workers=1,
-                timeout=1100, env={"TRACE": tpath}, xmx="8g")
+                name="Trace_Layout_" + abi, timeout=1100, env={"TRACE": tpath}, xmx="8g")
     res = rr.printed("RESULT")
     if len(res) != 1 or res[0]["n"] != len(events):
         raise vp.Broken("Trace_Layout did not complete: " + rr.out[-1500:])
-    chk.add_tlc("Trace_Layout", rr, "constant-level evaluation of the Layout Contracts on %d recorded events" % len(events))
+    chk.add_tlc("Trace_Layout (%s)" % abi, rr, "constant-level evaluation of the Layout Contracts on %d recorded events" % len(events))
     for b in res[0]["bad"]:
         ev = dict(events[b - 1])
         ev.pop("fields", None)
         st = structs[int(ev["struct"][2:])]
-        chk.violation("struct event outside the C08 Contract: struct %s fields %s: %s" % (ev["struct"], st, str(ev)[:700]),
-                      {"struct": st, "event": events[b - 1]})
-    chk.count(evaluations=len(events), distinct=len(structs) + len(edges), traces=len(structs))
+        chk.violation("struct event outside the C08 Contract [%s ABI]: struct %s fields %s: %s" % (abi, ev["struct"], st, str(ev)[:700]),
+                      {"abi": abi, "struct": st, "event": events[b - 1]})
+    return events, structs, edges, walks
+
+
+def run(tier):
+    chk = vp.Check("C08", tier)
+    wd = vp.workdir("c08")
+    thorough = tier == "thorough"
+    from concurrent.futures import ThreadPoolExecutor
+    abis = [("wasm32", 9), ("lp64u", 3), ("lp16", 3)]
+    with ThreadPoolExecutor(max_workers=3) as ex:
+        results = list(ex.map(lambda a: run_abi(chk, wd, a[0], thorough, a[1]), abis))
+    if any(r is None for r in results):
+        return chk.finish()
+    events = [e for r in results for e in r[0]]
+    nstructs = sum(len(r[1]) for r in results)
+    structs, edges, walks = results[0][1], [e for r in results for e in r[2]], [w for r in results for w in r[3]]
+    chk.count(evaluations=len(events), distinct=nstructs + len(edges), traces=nstructs)
     chk.sample({"struct": structs[0], "layout": {k: v for k, v in events[0].items() if k != "fields"}})
-    chk.cov["structs"] = len(structs)
+    chk.cov["structs"] = nstructs
+    chk.cov["abis"] = [a for a, _ in abis]
     chk.cov["family_total"] = len(walks)
     chk.cov["layout_transitions"] = len(edges)
     chk.cov["exhaustive"] = thorough
     chk.cov["scope"] = "structs covering every (layout state, field kind) transition%s; per struct 1 + 4 x slots value rounds " \
                        "(distinct values per slot; guest max/min and just beyond in one slot at a time; null/offset pointers; " \
                        "null/sandbox function pointers) through whole-struct store, to-tainted / field-wise / unwrapped load, " \
-                       "by-value argument and by-value result" % ("" if thorough else " (quick tier: 12 of the family)")
+                       "by-value argument and by-value result" % ("" if thorough else " (quick tier: 12 of the family under wasm32, 6 under lp64u and lp16 each)")
     chk.assumptions += ["const-qualified fields are not in the family (tainted structs with const fields cannot be assigned "
                         "field-wise by the driver)",
                         "by-value conversion of a non-representable field ends in std::terminate (noexcept member): "
                         "observed in a forked child and counted as abort",
-                        "guest sizes/alignments of the field kinds are the harness' statement of the wasm32 ABI"]
+                        "guest sizes/alignments of the field kinds are the harness' statement of the three guest ABIs (wasm32, lp64u, lp16), "
+                        "stated once in gen/struct_family.py and once in spec/MC_Layout*.tla and cross-checked"]
     return chk.finish(rule="one evaluation = one layout / struct-store / struct-load event judged by TLC; distinct_nontrivial = "
                            "structs of the family + layout transitions covered")
